@@ -28,7 +28,7 @@ def pyval(v):
 
 
 def exn_kind(e):
-    if isinstance(e, re.error):
+    if isinstance(e, re.error) or (isinstance(e, OverflowError) and 'repetition' in str(e)):
         return 'ReError'
     if isinstance(e, RecursionError):
         return 'Recursion'
@@ -123,7 +123,7 @@ def run_parse(case):
     fl = (re.I if case.get('ic') else 0) | (re.M if case.get('ml') else 0)
     try:
         rx = re.compile(case['pat'], fl)
-    except re.error:
+    except (re.error, OverflowError):
         return {'err': True}
     except RecursionError:
         return {'err': 'recursion'}
